@@ -19,3 +19,19 @@ def _generic_clone(eng, m, args, fr, dty):
         return NotImplemented
     from .engine import deep_copy
     return deep_copy(eng.deref(args[0], fr))
+
+
+@model(r'^<&(?:mut )?(.+) as (PartialEq|PartialOrd|Ord|Hash|Clone|ToString|Display)(<&?(?:mut )?.*>)?>::(\w+)(::<.*>)?$')
+def _ref_forward(eng, m, args, fr, dty):
+    """std blanket impls for references forward to the referent"""
+    from .engine import Ref
+    inner = '<%s as %s>::%s%s' % (m.group(1), m.group(2), m.group(4), m.group(5) or '')
+    if m.group(2) == 'Clone':
+        return args[0] if not isinstance(args[0], Ref) else eng.deref_once(args[0], fr)
+    nargs = []
+    for i, a in enumerate(args):
+        if isinstance(a, Ref) and (i == 0 or m.group(2) in ('PartialEq', 'PartialOrd', 'Ord')):
+            nargs.append(eng.deref_once(a, fr))
+        else:
+            nargs.append(a)
+    return eng.do_call(inner, nargs, fr, dty)
